@@ -435,6 +435,10 @@ def run_harness(unit, h, scratch):
 
 def judge(res, h):
     obs = res['obligations']
+    err = [o for o in obs if o['status'] not in ('SUCCESS', 'FAILURE')]
+    if err:
+        raise Undecided('cbmc reported status %s for %d obligations (solver gave up: memory limit or internal error), first: %s'
+                        % (err[0]['status'], len(err), err[0]['name']))
     reach = [o for o in obs if o['class'] == 'reach']
     if not reach:
         raise Undecided('no REACH obligation in harness (vacuity guard missing)')
